@@ -5,6 +5,7 @@ import sm2_oracle as o
 
 ID = "C13"
 PROPS = "Props/C13.v"
+GEN = ["sm2", "sm2sig"]      # curve constants (sm2/p256.go) and default_uid / limits / mode values (sm2/sm2.go)
 LEGS = [{"driver": "c13", "runner": ("sm2", "Extract/ExtractSM2.v", "Sm2_model")}]
 COQ_TIMEOUT = 2400
 
@@ -25,6 +26,7 @@ TRUSTED_BASE = [
     "specification coq/SM2/SM2Spec.v typed from GM/T 0003.3 over EC/SM2Curve.v and SM3/SM3Spec.v; the python oracle and the model reproduce the GM/T 0003.5 Annex example (K, S1, S2)",
     "extraction: ExtrOcamlBasic + ExtrOcamlZBigInt (positive/N/Z -> zarith Big_int_Z and its arithmetic constants); no other Extract directive; OCaml 4.13.1, zarith 1.12, dune; runner ocaml/sm2/main.ml",
     "Go driver harness/cmd/c13 (session generator, hard-coded leading-zero scalars, error catalogue)",
+    "translator targets sm2 (build-ec) and sm2sig (harness/cmd/gen/target_sm2sig.go): curve constants, nonce length, mode values, length limits read from the source into coq/Gen/*.v (theorem C13_source_constants_tied)",
     "python oracle checks/sm2_oracle.py (SM3, affine EC, KDF, key exchange per GM/T 0003.3) for the predicate",
 ]
 ASSUMPTIONS = [
